@@ -264,11 +264,33 @@ def const_reach(ctx: Ctx, f: FuncInfo, env0: Dict[str, object], on_node, start: 
     def prefix(fenv) -> str:
         return "" if fenv is None else f"{id(fenv)}:"
 
-    def view(fenv, st) -> Dict[str, object]:
+    _mod_consts: Dict[str, Dict[str, object]] = {}
+
+    def module_constants(fn: FuncInfo) -> Dict[str, object]:
+        """NAME = <literal> at module level, assigned once (e.g. the codes compared against a parameter)"""
+        m = fn.module
+        if m.name not in _mod_consts:
+            counts: Dict[str, int] = {}
+            for st_ in ast.walk(m.tree):
+                if isinstance(st_, (ast.Assign, ast.AnnAssign, ast.AugAssign)):
+                    for t in (st_.targets if isinstance(st_, ast.Assign) else [st_.target]):
+                        if isinstance(t, ast.Name):
+                            counts[t.id] = counts.get(t.id, 0) + 1
+            _mod_consts[m.name] = {k: v.value for k, v in m.assigns.items() if isinstance(v, ast.Constant) and counts.get(k, 0) == 1
+                                   and isinstance(v.value, (int, str, bool, type(None)))}
+        return _mod_consts[m.name]
+
+    def view(fenv, st, fn: Optional[FuncInfo] = None) -> Dict[str, object]:
         p = prefix(fenv)
+        base = dict(module_constants(fn)) if fn is not None else {}
+        if fn is not None:
+            sc = ctx.an.scope(fn)
+            base = {k: v for k, v in base.items() if k not in sc.params and k not in sc.defs}
         if not p:
-            return {k: v for k, v in st if ":" not in k}
-        return {k[len(p):]: v for k, v in st if k.startswith(p)}
+            base.update({k: v for k, v in st if ":" not in k})
+        else:
+            base.update({k[len(p):]: v for k, v in st if k.startswith(p)})
+        return base
 
     def bind_params(call: ast.Call, callee: FuncInfo, arg_of, caller_view) -> Dict[str, object]:
         new: Dict[str, object] = {}
@@ -311,7 +333,7 @@ def const_reach(ctx: Ctx, f: FuncInfo, env0: Dict[str, object], on_node, start: 
                 env[q + k] = v
             return [frozenset(env.items())]
         if n.op == "test" and lab[0] in ("T", "F"):
-            v = eval3(n.ast, view(n.env, st))
+            v = eval3(n.ast, view(n.env, st, n.func))
             if v is not None and v != (lab[0] == "T"):
                 return []
         if n.op == "assign" and lab[0] in NORMAL_KINDS:
